@@ -11,11 +11,12 @@ PROPS = {
         "level": "model_checking",
         "uses_vsched": True,
         "technique": "stateless model checking of the real goroutines: delay-bounded exhaustive schedule/fault enumeration under a controlled scheduler (synctest bubbles)",
-        "claim": "every execution of 2-3 concurrent callers + scripted peer (answer/error/unknown id/late answer/EOF/read error) + optional canceller/Close thread/write faults within the deviation budget is run on the real jsonrpc2.Connection and checked against the completion oracle (own payload or an error with a cause that occurred; no blocked caller; late calls fail with the closing error); streamable HTTP client: a call whose SSE response is cut at every byte offset (read error / clean end; with and without event ids; retry budgets 0/1) always completes, with the response or an error",
+        "claim": "every execution of 2-3 concurrent callers + scripted peer (answer/error/unknown id/late answer/EOF/read error) + optional canceller/Close thread/write faults within the deviation budget is run on the real jsonrpc2.Connection and checked against the completion oracle (own payload or an error with a cause that occurred; no blocked caller; late calls fail with the closing error); streamable HTTP client: a call whose SSE response is cut at every byte offset (read error / clean end; with and without event ids; retry budgets 0/1) always completes, with the response or an error; every session API method (6 client, 3 server) on sessions of both protocol generations after the session terminated (closed by either side, Wait returned): fails at once with an error naming the closed connection, nothing left running",
         "note": "assumes race-freedom between scheduling points; bounded to K<=3 callers and budget B<=2/3 deviations from the default schedule; map iteration order canonicalised",
         "parts": [
-            {"pkg": "mcp", "mode": "instr", "test": "TestVerifC01", "two_phase": True, "time_s": {"thorough": 1800}, "scenario_exclude": "http/"},
+            {"pkg": "mcp", "mode": "instr", "test": "TestVerifC01", "two_phase": True, "time_s": {"thorough": 1800}, "scenario_exclude": ["http/", "api/"]},
             {"pkg": "mcp", "mode": "plain", "test": "TestVerifC01HTTP", "scenario_prefix": "http/", "shards": 8},
+            {"pkg": "mcp", "mode": "plain", "test": "TestVerifC01AfterClose", "scenario_prefix": "api/", "shards": 1},
             {"pkg": "mcp", "mode": "race", "test": "TestVerifC01", "scenario_prefix": "free-race/", "free_runs": {"quick": 60, "thorough": 600}},
         ],
         "assumptions": E1_ASSUME + ["at most 3 concurrent calls, one call per caller"],
